@@ -21,6 +21,27 @@ from ..emitrules import get_paths
 from .c29 import shared_state_rule
 
 
+def _blocks_copied(fn: ast.AST) -> bool:
+    """context.blocks.update(<k: list(v) for k, v in self.blocks.items()>) - as a generator of
+    pairs or a dict comprehension, with any variable names."""
+    for c in astq.calls(fn):
+        if astq.callee(c) != "context.blocks.update" or len(c.args) != 1:
+            continue
+        a = c.args[0]
+        if isinstance(a, (ast.GeneratorExp, ast.ListComp)) and isinstance(a.elt, ast.Tuple) and len(a.elt.elts) == 2:
+            k, v = a.elt.elts
+        elif isinstance(a, ast.DictComp):
+            k, v = a.key, a.value
+        else:
+            continue
+        g = a.generators[0]
+        if len(a.generators) == 1 and not g.ifs and ast.unparse(g.iter) == "self.blocks.items()" and isinstance(g.target, ast.Tuple) and len(g.target.elts) == 2:
+            kv, vv = (ast.unparse(e_) for e_ in g.target.elts)
+            if ast.unparse(k) == kv and ast.unparse(v) == f"list({vv})":
+                return True
+    return False
+
+
 def derived_context_rule(ctx: Ctx, rid: str) -> None:
     """Context.call hands a *derived* context to pass_context callables (new-style gettext,
     context filters) and scoped blocks: it must carry the render's live eval context - a fresh
@@ -32,7 +53,7 @@ def derived_context_rule(ctx: Ctx, rid: str) -> None:
     ok = len(asg) == 1 and ast.unparse(asg[0].value) == "self.eval_ctx" and not astq.guard_texts(dv.node, asg[0])
     ctx.check(ok, "derived:eval_ctx", "runtime:Context.derived", "derived context does not share self.eval_ctx",
               "Context.derived must assign `context.eval_ctx = self.eval_ctx` unconditionally: otherwise a pass_context callable reached through Context.call (new-style gettext inside a loop / block with a `set`) or a scoped block sees the environment's default autoescape instead of the one in force, and marks markup safe / escapes values wrongly", dv.loc())
-    ctx.check("context.blocks.update(((k, list(v)) for k, v in self.blocks.items()))" in ast.unparse(dv.node), "derived:blocks", "runtime:Context.derived", "block stacks copied", "a derived context must copy the block stacks", dv.loc())
+    ctx.check(_blocks_copied(dv.node), "derived:blocks", "runtime:Context.derived", "block stacks copied", "a derived context must copy the block stacks", dv.loc())
 
 
 def check(ctx: Ctx) -> str:
@@ -70,7 +91,7 @@ def check(ctx: Ctx) -> str:
     ctx.check("self.eval_ctx = EvalContext(self.environment, name)" in s and "self.vars: dict[str, t.Any] = {}" in s, "Context:fresh", "runtime:Context.__init__", "fresh per-render state", "every Context must own a new EvalContext and vars dict", ci.loc())
     dv = repo.func("runtime:Context.derived")
     s = ast.unparse(dv.node)
-    ctx.check("context.blocks.update(((k, list(v)) for k, v in self.blocks.items()))" in s and "context.eval_ctx = self.eval_ctx" in s, "derived:copies", "runtime:Context.derived", "derived context copies block stacks", "a derived context must copy the block stacks (lists) and share only the render's own eval context", dv.loc())
+    ctx.check(_blocks_copied(dv.node) and "context.eval_ctx = self.eval_ctx" in s, "derived:copies", "runtime:Context.derived", "derived context copies block stacks", "a derived context must copy the block stacks (lists) and share only the render's own eval context", dv.loc())
     res = get_paths(ctx)
     n = 0
     bad: dict[str, str] = {}
